@@ -366,6 +366,7 @@ type Clause struct {
 type LoopContract struct {
 	Ordinal    int
 	Invariants []*Clause
+	BodyAsserts []*Clause // proved then assumed at the entry of the loop body
 }
 
 type SpecFunc struct {
